@@ -27,3 +27,34 @@ Theorem C09_visit_identity :
                /\ same_but_dc s s'.
 Proof. intros E H n. exact (visit_identity E H n). Qed.
 Print Assumptions C09_visit_identity.
+
+(* ---- modules that do contain JSX ---------------------------------------------------------- *)
+From VJ Require Import Lemmas.FrameItems.
+
+(* every JSX-free top-level statement of a module comes back unchanged and in order; whatever the
+   transform adds (imports, the slot helper, hoisted declarations) sits in front of them *)
+Theorem C09_items_frame :
+  forall (E : env), o_resolve_type (e_opts E) = false ->
+  forall kt t kb items ki iv,
+    let m := NObj [Field kt (NScalar t); Field kb (NArr items); Field ki (NScalar iv)] in
+    exists pre items',
+      fst (transform_module E (hook_call E) (hook_declarator E) (collect_ts_decls E subs) m)
+      = NObj [Field kt (NScalar t); Field kb (NArr (pre ++ items')); Field ki (NScalar iv)]
+      /\ Forall2 (fun x x' => jsx_free x = true -> x' = x) items items'.
+Proof. exact module_items_frame. Qed.
+Print Assumptions C09_items_frame.
+
+(* a second pass over the output is the identity (the output is JSX-free by C07_module_is_jsx_free,
+   and a JSX-free module comes back unchanged by C09_identity) *)
+Theorem C09_idempotent :
+  forall (E : env), o_resolve_type (e_opts E) = false ->
+  forall m : node, module_shape m = true -> gram PExpr m = true ->
+    let T := fun x => fst (transform_module E (hook_call E) (hook_declarator E) (collect_ts_decls E subs) x) in
+    T (T m) = T m.
+Proof. exact module_idempotent. Qed.
+Print Assumptions C09_idempotent.
+Check C09_idempotent :
+  forall (E : env), o_resolve_type (e_opts E) = false ->
+  forall m : node, module_shape m = true -> gram PExpr m = true ->
+    let T := fun x => fst (transform_module E (hook_call E) (hook_declarator E) (collect_ts_decls E subs) x) in
+    T (T m) = T m.
